@@ -15,18 +15,18 @@ from datetime import datetime, timedelta
 
 LEVEL = "exploration"
 RULE = ("ttl {1,1.5,4,3600,none} x delivery instant {E-1s,E-1us,E,E+1us,E+1s} x kind {immediate, delayed T<E, delayed T>E, "
-        "retry back-off crossing E, retry inside E, recurring (clock restarted)} x broker; evaluation = one message judged; "
+        "retry back-off crossing E, late first attempt + back-off crossing E within one ttl of the retry, retry inside E, recurring (clock restarted)} x broker; evaluation = one message judged; "
         "fingerprint = (broker, ttl, instant class, kind, latency); trivial = none")
 ASSUMPTIONS = ["Redis and RabbitMQ are wire-level fakes", "virtual time; exact instants only at zero wire latency (redis polls priorities with 0.1 s sleeps, so its instants are approximate; the oracle uses the observed instants)",
                "with wire latency l the execution allowance after E is 2l + 0.35 s"]
 EVAL_COUNTER = "messages_judged"
-REQUIRED = ["messages_judged", "executed_live", "dead_lettered_expired", "dead_retrieved", "boundary_exact", "kind_retry_cross", "kind_resched"]
+REQUIRED = ["messages_judged", "executed_live", "dead_lettered_expired", "dead_retrieved", "boundary_exact", "kind_retry_cross", "kind_retry_late", "kind_resched"]
 CASE_TIMEOUT = 120
 
 TTLS = [1.0, 1.5, 4.0, 3600.0, 90000.0, 172800.0, None]
 DELTAS = [-1.0, -0.000001, 0.0, 0.000001, 1.0]
 LATE_DELTAS = [83100.0, 86400.0, 259200.0 + 7.0]  # a day (or three) after the expiry: arithmetic on days, not only seconds
-KINDS = ["immediate", "delayed_before", "delayed_after", "retry_cross", "retry_inside", "resched"]
+KINDS = ["immediate", "delayed_before", "delayed_after", "retry_cross", "retry_inside", "retry_late", "resched"]
 
 
 def gen_cases(tier, seed):
@@ -36,7 +36,7 @@ def gen_cases(tier, seed):
         items = []
         for ttl in TTLS:
             for kind in KINDS:
-                if ttl is None and kind in ("delayed_after", "retry_cross"):
+                if ttl is None and kind in ("delayed_after", "retry_cross", "retry_late"):
                     continue
                 ds = (DELTAS + (LATE_DELTAS if kind == "immediate" else [])) if kind in ("immediate", "delayed_before") else [0.0]
                 if ttl is None:
@@ -48,7 +48,7 @@ def gen_cases(tier, seed):
         for lat in lats:
             for ph in phases:
                 for it in items:
-                    if tier == "quick" and lat is not None and it["kind"] not in ("immediate", "retry_cross", "resched"):
+                    if tier == "quick" and lat is not None and it["kind"] not in ("immediate", "retry_cross", "retry_late", "resched"):
                         continue
                     cases.append({"broker": broker, "latency": lat, "seed": rnd.randrange(10**6), "phase": ph if ph is not None else rnd.choice([0.0, 0.25, 0.5, 0.999]), **it})
     return cases
@@ -97,6 +97,12 @@ async def scenario(loop, case, out, stats, fps, samples):
             kw["retries"] = 1
             script = {"by_attempt": [{"do": "raise"}, {"do": "ok"}]}
             BACKOFF[0] = (ttl + 1.0) if kind == "retry_cross" else min(0.5, (ttl or 1.0) / 4)
+        elif kind == "retry_late":
+            # first attempt at 0.6 ttl after the scheduling, back-off 0.6 ttl: the redelivery falls after the expiry although
+            # less than one ttl has passed since the retry
+            kw["retries"] = 1
+            script = {"by_attempt": [{"do": "raise"}, {"do": "ok"}]}
+            BACKOFF[0] = 0.6 * ttl
         elif kind == "resched":
             kw["deferred_by"] = timedelta(seconds=2.0)
         job = w.job("act", "m1", script, **kw)
@@ -108,6 +114,10 @@ async def scenario(loop, case, out, stats, fps, samples):
             await asyncio.sleep(0.01)
             await w.rig.quiesce_wire()
             loop.jump_to(tE + delta)
+        if kind == "retry_late":
+            await asyncio.sleep(0.01)
+            await w.rig.quiesce_wire()
+            loop.jump_to(vt(job.timestamp) + 0.6 * ttl)
         first_dead = {}
 
         def probe(step, _rig=w.rig):
@@ -122,7 +132,7 @@ async def scenario(loop, case, out, stats, fps, samples):
         loop.step_hook = probe
         worker = w.worker([r], tasks_limit=10, graceful_shutdown_time=3.0, handle_signals=[__import__("signal").SIGUSR1])
         horizon = {"immediate": 2.5, "delayed_before": 6.0, "delayed_after": (ttl or 0) + 4.0, "retry_cross": (ttl or 0) + 5.0,
-                   "retry_inside": 3.0, "resched": 9.0}[kind]
+                   "retry_late": 0.6 * (ttl or 0) + 5.0, "retry_inside": 3.0, "resched": 9.0}[kind]
         if ttl is not None and ttl > 100 and kind == "retry_inside":
             pass
         if ttl is not None and ttl > 100 and kind == "delayed_after":
@@ -130,12 +140,12 @@ async def scenario(loop, case, out, stats, fps, samples):
             await asyncio.sleep(0.5)
             await w.rig.quiesce_wire()
             loop.jump_to(tE + 1.5)
-        if ttl is not None and ttl > 100 and kind == "retry_cross":
+        if ttl is not None and ttl > 100 and kind in ("retry_cross", "retry_late"):
             # first attempt fails now; the process is then suspended (clock step) until the back-off is over
             info0 = await run_worker(w, worker, until=lambda: bool(w.events("actor_raise", "m1")) and bool(w.dispositions("m1")), horizon=4.0, poll=0.1)
             await asyncio.sleep(0.3)
             await w.rig.quiesce_wire()
-            loop.jump_to(tE + 1.5)
+            loop.jump_to(tE + 1.5 if kind == "retry_cross" else vt(job.timestamp) + 1.2 * ttl + 1.5)
             worker = w.worker([r], tasks_limit=10, graceful_shutdown_time=3.0, handle_signals=[__import__("signal").SIGUSR1])
             horizon = 4.0
         info = await run_worker(w, worker, horizon=horizon, poll=0.25)
@@ -153,14 +163,24 @@ async def scenario(loop, case, out, stats, fps, samples):
         if lat is None and abs(delta) < 0.001 and kind in ("immediate", "delayed_before") and ttl is not None:
             stats["boundary_exact"] += 1
         fps.add(f"{broker}/{ttl}/{delta}/{kind}/{lat}/{case.get('phase')}")
-        # (1) executed => not expired at the start
-        for s in starts:
+        # (1) executed => not expired at the start. The time-to-live counts from the message's latest SCHEDULING: the
+        # producer's enqueue, or the reschedule of a recurring job (ground truth: the instant the previous iteration ended);
+        # a retry is not a new scheduling. The timestamp the delivered message carries is checked against that, not trusted.
+        exits = sorted(e["t"] for e in w.events("actor_exit", "m1") + w.events("actor_raise", "m1"))
+        for i, s in enumerate(starts):
             if tE is not None:
-                # expiry of THIS delivery: the timestamp the delivered message carried + ttl
                 ts = datetime.fromisoformat(s["params_ts"])
-                e_this = vt(ts + ttl_td)
+                if kind != "resched" or i == 0:
+                    e_this = tE
+                    if ts != job.timestamp:
+                        out.append(V("ttl_clock_moved", broker, ctx, f"delivery {i + 1} of m1 carries timestamp {ts} but it was scheduled at {job.timestamp} (ttl={ttl}s)"))
+                else:
+                    prev_end = exits[i - 1] if len(exits) >= i else None  # one end per start, in order
+                    e_this = (prev_end + ttl + 0.05 + 4 * (lat or 0)) if prev_end is not None else vt(ts + ttl_td)
+                    if prev_end is not None and not (prev_end - 1e-6 <= vt(ts) <= prev_end + 0.05 + 4 * (lat or 0)):
+                        out.append(V("ttl_clock_moved", broker, ctx, f"iteration {i + 1} of recurring m1 carries timestamp +{vt(ts):.6f} but it was rescheduled at +{prev_end:.6f}"))
                 if s["t"] > e_this + allowance + 1e-9:
-                    out.append(V("expired_executed", broker, ctx, f"ttl={ttl}s: actor started at +{s['t']:.6f}, expiry of the delivered message was +{e_this:.6f} ({(s['t'] - e_this) * 1e3:.3f} ms earlier)"))
+                    out.append(V("expired_executed", broker, ctx, f"ttl={ttl}s: actor started (delivery {i + 1}) at +{s['t']:.6f}, the message expired at +{e_this:.6f} ({(s['t'] - e_this) * 1e3:.3f} ms earlier)"))
         if starts:
             stats["executed_live"] += 1
         failed = any(True for e in w.events("actor_raise", "m1"))
@@ -169,7 +189,7 @@ async def scenario(loop, case, out, stats, fps, samples):
             td = first_dead.get("t")
             if tE is None:
                 out.append(V("live_dead_lettered", broker, ctx, f"no ttl, yet dead-lettered at +{td}"))
-            elif kind in ("retry_cross",):
+            elif kind in ("retry_cross", "retry_late"):
                 stats["dead_lettered_expired"] += 1  # expected: back-off crossed E
                 if len(starts) > 1:
                     pass  # judged by rule (1)
@@ -187,6 +207,8 @@ async def scenario(loop, case, out, stats, fps, samples):
                 pass  # rule (1) already reported
             else:
                 out.append(V("expired_not_dead_lettered", broker, ctx, f"ttl={ttl}s, due 1 s after expiry: message is at {place} {horizon}s later"))
+        if kind in ("retry_cross", "retry_late") and place != ["dead"] and len(starts) < 2:
+            out.append(V("expired_not_dead_lettered", broker, ctx, f"ttl={ttl}s: the retry became due after the expiry, message is at {place} at the end"))
         if kind == "resched" and ttl is not None and ttl >= 3.0 and len(starts) < 3:
             out.append(V("live_dead_lettered", broker, "resched-iterations", f"recurring every 2 s with ttl={ttl}s: only {len(starts)} iterations ran in {horizon}s; place {place}"))
         if kind == "resched" and ttl is not None and ttl < 2.0:
